@@ -131,6 +131,12 @@ where
             );
             let p2 = check_inv(&r);
             kani::assert(p2 == (g.p + n) as u128, "OBS c02.read_bits: advances by exactly n");
+            // contract clause used by the Verus unit reader_copy_to (the optimised copy relies on it
+            // to bound the bits left in the buffer after moving the first 64)
+            if n <= g.bits {
+                let (_, _, bits2) = r.verif_parts();
+                kani::assert(bits2 == g.bits - n, "INT c02.read_bits: no backend access when the buffer holds enough bits");
+            }
         }
         Err(e) => {
             kani::assert(
